@@ -837,6 +837,8 @@ func (sb *seqbag) ShuffleSequences() {
 		sb.seqs[n] = sb.seqs[r]
 		sb.seqs[r] = temp
 	}
+	// If two sequences have the same name, the index points to the first one
+	sb.reindex()
 }
 
 // This function renames sequences of the alignment based on the given regex and replace strings
@@ -886,6 +888,7 @@ func (sb *seqbag) Sort() {
 	sort.SliceStable(sb.seqs, func(i, j int) bool {
 		return sb.seqs[i].name < sb.seqs[j].name
 	})
+	sb.reindex()
 }
 
 /*
